@@ -24,6 +24,7 @@
 #include <cstring>
 #include <map>
 #include <poll.h>
+#include <sched.h>
 #include <pthread.h>
 #include <semaphore.h>
 #include <string>
@@ -626,6 +627,11 @@ static void write_all(int fd, const void * p, size_t n)
 // runs in a forked child: execute the schedule, write Res per item index + the decision trace, exit
 [[noreturn]] static void child_execute(const Schedule & sc, bool scripted, uint64_t sched_seed, int fd)
   {
+  {   // exactly one simulated thread runs at any instant: keep them all on the CPU we are on, so a baton handoff is a
+      // same-core context switch instead of a cross-core wake-up (which can cost 50-100 us when cores idle)
+  int cpu = sched_getcpu();
+  if (cpu >= 0) { cpu_set_t set; CPU_ZERO(&set); CPU_SET(cpu, &set); sched_setaffinity(0, sizeof set, &set); }
+  }
   struct sigaction sa{};
   sa.sa_handler = on_signal; sigemptyset(&sa.sa_mask); sa.sa_flags = SA_NODEFER;
   sigaction(SIGFPE, &sa, nullptr); sigaction(SIGSEGV, &sa, nullptr); sigaction(SIGBUS, &sa, nullptr); sigaction(SIGILL, &sa, nullptr); sigaction(SIGABRT, &sa, nullptr);
@@ -728,7 +734,7 @@ static Outcome run_schedule(const Schedule & sc, bool scripted, uint64_t sched_s
   close(pf[1]);
   Outcome o; o.res.assign(sc.items.size(), Res{255, 0, 0}); o.complete = false;
   uint64_t hdr[9] = {0, 0, 0, 0, 0, 0, 0, 0, 0};
-  const int limit_ms = 10000;
+  const int limit_ms = 20000 + static_cast<int>(sc.items.size() / 4);        // a wall-clock guard only; scales with the schedule
   if (read_all(pf[0], o.res.data(), o.res.size() * sizeof(Res), limit_ms) && read_all(pf[0], hdr, sizeof hdr, limit_ms))
     {
     o.trace.resize(hdr[0]);
@@ -740,8 +746,10 @@ static Outcome run_schedule(const Schedule & sc, bool scripted, uint64_t sched_s
     g_yields_total += hdr[1]; g_switches_total += hdr[2]; g_threads_total += hdr[3]; if (hdr[3] > g_threads_max) g_threads_max = hdr[3];
     }
   close(pf[0]);
+  bool was_incomplete = !o.complete;
   if (!o.complete) { kill(pid, SIGKILL); ++g_hung; for (auto & r : o.res) r = Res{255, 0, 0}; o.trace.clear(); }
   int st = 0; while (waitpid(pid, &st, 0) < 0 && errno == EINTR) {}
+  if (was_incomplete && getenv("HSIM_DEBUG")) fprintf(stderr, "incomplete child: wait status 0x%x (exited=%d code=%d signaled=%d sig=%d) items=%zu clients=%d\n", st, WIFEXITED(st), WIFEXITED(st) ? WEXITSTATUS(st) : -1, WIFSIGNALED(st), WIFSIGNALED(st) ? WTERMSIG(st) : 0, sc.items.size(), sc.clients);
   return o;
   }
 
